@@ -291,6 +291,25 @@ def explore(ctx):
         if why:
             ctx.violation('best-standard', why, {'kind': 'std', 'caps': caps, 'faults': faults})
         best_cases.append(('[' + '; '.join(f'({i}, ({c})%Z)' for i, c in enumerate(counts)) + ']', [1, chosen, counts[chosen]] if chosen >= 0 else [-1, -1]))
+    # the count query that seeds the cursor fails (hangs past the timeout, exits non-zero, prints no count): there is no count
+    # to stay within, so no range may be requested at all
+    for std in (['c++17'] if ctx.quick() else ['c++98', 'c++17', 'c++2b']):
+        for fault in ('sleep', 'nocount', 1):
+            scen = setup(ctx, {'caps': {}, 'query_faults': {std: fault}, 'sleep': 3.0})
+            path = os.path.join(ctx.tmp, 'tc.cc')
+            with open(path, 'w') as f:
+                f.write(''.join(f'I{i}\n' for i in range(6)))
+            pass_ = mk_pass('bin', std)
+            pass_.QUERY_TIMEOUT = 1.0 if fault == 'sleep' else 120
+            steps, final, reason = run_ref(pass_, path, lambda c: False, ctx.tmp, max_steps=40)
+            log = read_log(scen)
+            ctx.evaluations += 1
+            ctx.count('seeding-query-fails:' + str(fault))
+            ctx.nontriv(('seed-query', std, fault))
+            asked = [r['argv'] for r in log if not r['query']]
+            if asked:
+                ctx.violation('range-without-count', f'--std={std} given by the user, its count query {"hangs" if fault == "sleep" else "fails" if fault == 1 else "prints no count"}: '
+                              f'the pass still asked the tool for {[a for a in asked[0] if "counter" in a]}', {'kind': 'seedfault', 'std': std, 'fault': fault})
     # dependent instances (the tool removes more than asked): clamped requests, warnings before the count line
     for n in ((5, 8) if ctx.quick() else (3, 4, 5, 6, 8, 10, 13)):
         for k in (1, 2):
@@ -340,6 +359,19 @@ def replay(ctx, payload):
         print('replay:', why)
         if why:
             ctx.violation('clang-driving-dependent-instances', why, r)
+        return
+    if r['kind'] == 'seedfault':
+        scen = setup(ctx, {'caps': {}, 'query_faults': {r['std']: r['fault']}, 'sleep': 3.0})
+        path = os.path.join(ctx.tmp, 'tc.cc')
+        with open(path, 'w') as f:
+            f.write(''.join(f'I{i}\n' for i in range(6)))
+        pass_ = mk_pass('bin', r['std'])
+        pass_.QUERY_TIMEOUT = 1.0 if r['fault'] == 'sleep' else 120
+        run_ref(pass_, path, lambda c: False, ctx.tmp, max_steps=40)
+        asked = [x['argv'] for x in read_log(scen) if not x['query']]
+        print('replay: transform calls', asked[:3])
+        if asked:
+            ctx.violation('range-without-count', 'replayed', r)
         return
     if r['kind'] in ('mono', 'seq'):
         steps, final, reason, log, _ = run_bin(ctx, r['n'], r['kind'], r['param'], r.get('scen'))
